@@ -6,7 +6,9 @@ from xml.sax.saxutils import escape
 
 from bs4 import BeautifulSoup
 
-from .base import DFXPWriter, DFXP_DEFAULT_REGION
+from .base import (
+    DFXPWriter, DFXP_DEFAULT_REGION, _escape_attribute_values,
+)
 from ..base import BaseWriter, CaptionNode, merge_concurrent_captions
 
 LEGACY_DFXP_BASE_MARKUP = '''
@@ -249,4 +251,4 @@ class LegacyDFXPWriter(BaseWriter):
         if 'display-align' in content:
             dfxp_style['tts:displayAlign'] = content['display-align']
 
-        return dfxp_style
+        return _escape_attribute_values(dfxp_style)
